@@ -3,7 +3,7 @@
 
 use crate::model::{Arb, Model, Same};
 use minicbor::bytes::{ByteArray, ByteSlice, ByteVec};
-use minicbor::data::{Int, Tag, Tagged};
+use minicbor::data::{Int, Tag, Tagged, Token};
 use minicbor::{CborLen, Decode, Encode};
 use std::borrow::Cow;
 use std::collections::{BTreeMap, BTreeSet, BinaryHeap, HashMap, HashSet, LinkedList, VecDeque};
@@ -309,6 +309,62 @@ impl Entry for EOptRefStr {
     fn borrows_from<'a>(v: &Option<&'a str>, input: &'a [u8]) -> bool { v.map(|s| within(s.as_ptr(), s.len(), input)).unwrap_or(true) }
 }
 
+/// `Token` (like `Tag`) encodes a single head, not always a complete item.
+pub fn head_only<E: Entry>() -> bool { E::NAME == "Tag" || E::NAME == "Token" }
+
+pub fn token_int(t: &Token<'_>) -> Option<i128> {
+    Some(match t {
+        Token::U8(n) => *n as i128, Token::U16(n) => *n as i128, Token::U32(n) => *n as i128, Token::U64(n) => *n as i128,
+        Token::I8(n) => *n as i128, Token::I16(n) => *n as i128, Token::I32(n) => *n as i128, Token::I64(n) => *n as i128,
+        Token::Int(n) => i128::from(*n),
+        _ => return None
+    })
+}
+
+/// Every `Token` variant; byte and text payloads borrow from the seed.
+pub struct ETok;
+impl Entry for ETok {
+    const NAME: &'static str = "Token";
+    type Seed = (Vec<u8>, String, Token<'static>);
+    type Val<'a> = Token<'a>;
+    fn seed(g: &mut Gen) -> Self::Seed {
+        let b = g.bytes(300);
+        let s = g.string(80);
+        let t = crate::checks::c07::gen_token(g, &[], "", false);
+        (b, s, t)
+    }
+    fn view<'a>(s: &'a Self::Seed) -> Token<'a> {
+        match s.2 { Token::Bytes(_) => Token::Bytes(&s.0), Token::String(_) => Token::String(&s.1), t => t }
+    }
+    fn same<'a, 'b>(a: &Token<'a>, b: &Token<'b>) -> bool {
+        match (a, b) {
+            (Token::F16(x), Token::F16(y)) => x.to_bits() == y.to_bits() || (x.is_nan() && y.is_nan()),
+            (Token::F32(x), Token::F32(y)) => x.to_bits() == y.to_bits(),
+            (Token::F64(x), Token::F64(y)) => x.to_bits() == y.to_bits(),
+            (Token::Bytes(x), Token::Bytes(y)) => x == y,
+            (Token::String(x), Token::String(y)) => x == y,
+            _ => match (token_int(a), token_int(b)) {
+                (Some(x), Some(y)) => x == y,
+                (None, None) => format!("{:?}", a) == format!("{:?}", b),
+                _ => false
+            }
+        }
+    }
+    fn model<'a>(v: &Token<'a>) -> Option<Item> {
+        if let Some(n) = token_int(v) { return Some(Item::int(n)) }
+        Some(match v {
+            Token::Bool(b) => Item::bool(*b), Token::Null => Item::Null, Token::Undefined => Item::Undefined,
+            Token::Simple(n) if *n < 20 || *n >= 32 => Item::Simple(*n),
+            Token::F32(x) => Item::F32(x.to_bits()), Token::F64(x) => Item::F64(x.to_bits()),
+            Token::Bytes(b) => Item::bytes(b), Token::String(s) => Item::text(s),
+            _ => return None
+        })
+    }
+    fn borrows_from<'a>(v: &Token<'a>, input: &'a [u8]) -> bool {
+        match v { Token::Bytes(b) => within(b.as_ptr(), b.len(), input), Token::String(s) => within(s.as_ptr(), s.len(), input), _ => true }
+    }
+}
+
 pub struct EVecRefStr;
 impl Entry for EVecRefStr {
     const NAME: &'static str = "Vec<&str>";
@@ -344,7 +400,7 @@ macro_rules! for_each_entry {
             $mac!(EBTreeMapU8U8), $mac!(EBTreeMapStrVec), $mac!(EHashMapU32Str), $mac!(EHashMapStrOptBool),
             $mac!(ERange), $mac!(ERangeFrom), $mac!(ERangeTo), $mac!(ERangeToIncl), $mac!(ERangeIncl), $mac!(EBound),
             $mac!(EDuration), $mac!(ESystemTime), $mac!(EIpAddr), $mac!(EIpv4), $mac!(EIpv6), $mac!(ESockAddr), $mac!(ESockAddrV4), $mac!(ESockAddrV6),
-            $mac!(EInt), $mac!(ETag), $mac!(ETagged0Str), $mac!(ETagged55799), $mac!(ETagged24Bytes), $mac!(ETaggedBigU8), $mac!(ETaggedMaxVec),
+            $mac!(EInt), $mac!(ETag), $mac!(ETok), $mac!(ETagged0Str), $mac!(ETagged55799), $mac!(ETagged24Bytes), $mac!(ETaggedBigU8), $mac!(ETaggedMaxVec),
         ]
     }}
 }
